@@ -25,13 +25,16 @@ def main():
     a = ap.parse_args()
     seed = int(os.environ.get("VERIF_SEED", "0") or 0)
     pid = a.pid.upper()
+    extra = pid.startswith("X-")
     try:
-        mod = importlib.import_module("harness.props." + pid.lower())
+        mod = importlib.import_module(("harness.extras." + pid[2:].lower()) if extra else ("harness.props." + pid.lower()))
     except ImportError:
         traceback.print_exc()
         print("MACHINERY-ERROR: no check for", pid)
         return 2
     ctx = core.Ctx(pid, a.tier, seed, level=getattr(mod, "LEVEL", "model_checking"))
+    if extra:
+        ctx.evidence_dir = "evidence-extra"
     try:
         if a.replay:
             with open(a.replay) as f:
